@@ -61,6 +61,7 @@ type Prop struct {
 	// Validate runs the native validation test (translator, summaries, oracle
 	// restatements) and returns the number of vectors pushed through.
 	ValidateRun string // go test -run pattern in the overlay test file ("" = none)
+	ObserveBV bool // also validate the observations with machine integers as bit-vectors
 	ObserveHarness []string // harness functions run natively AND through the engine on concrete vectors; their observations must agree
 	TestFiles []string // extra _test overlay files under /verif/harness
 	Instrument []Instr // textual instrumentation of repo files, applied in the overlay (symbolic and native alike)
@@ -361,7 +362,29 @@ func runCheck(id, tier string) int {
 		}
 	}
 
-	obsOK, obsN, obsMsg := runObservations(sc, base, prog, p)
+	var baseBV *sym.Engine
+	needBV := p.ObserveBV
+	for _, o := range p.Obligs(tier) {
+		if o.BVMode {
+			needBV = true
+		}
+	}
+	if needBV {
+		baseBV, err = base.Fork(98, "z3", 10000)
+		if err == nil {
+			err = baseBV.ReinitBV(p.PkgPath)
+		}
+		if err != nil {
+			fmt.Println("INCONCLUSIVE: cannot initialise the bit-vector encoding:", err)
+			writeEvidence(evPath, id, tier, seed, time.Since(t0), nil, nil, 0, []string{err.Error()}, 0, p)
+			return 0
+		}
+		defer baseBV.Close()
+		for k := range base.OpenFindings {
+			baseBV.OpenFindings[k] = true
+		}
+	}
+	obsOK, obsN, obsMsg := runObservations(sc, base, baseBV, prog, p)
 	obligs := p.Obligs(tier)
 	if only := os.Getenv("VERIF_ONLY"); only != "" {
 		var sel []Oblig
@@ -387,7 +410,11 @@ func runCheck(id, tier string) int {
 			defer wg.Done()
 			sem <- struct{}{}
 			defer func() { <-sem }()
-			results[i] = runOblig(base, prog, p, obligs[i], i+1, tier)
+			b := base
+			if obligs[i].BVMode {
+				b = baseBV
+			}
+			results[i] = runOblig(b, prog, p, obligs[i], i+1, tier)
 		}(i)
 	}
 	wg.Wait()
@@ -534,7 +561,9 @@ func runCheck(id, tier string) int {
 			s := sampleRec{Obligation: a.ID, Harness: r.O.Harness, Verdict: verdict, Paths: e.Stats.Paths, Queries: e.Solver.Queries,
 				PathQueriesProved: a.Proved, Solver: e.Solver.Name, SolverS: e.Solver.Time.Seconds(), Bounds: boundsStr(r.O), Model: vsamples[a.ID]}
 			samples = append(samples, s)
-			fmt.Printf("  %-34s %-20s paths=%d asserts(unsat/sat/unk)=%d/%d/%d %.1fs\n", a.ID, verdict, e.Stats.Paths, a.Proved, a.Failed, a.Unknown, r.Wall.Seconds())
+			if verdict != "holds within bounds" || len(results) <= 60 {
+				fmt.Printf("  %-34s %-20s paths=%d asserts(unsat/sat/unk)=%d/%d/%d %.1fs [%s]\n", a.ID, verdict, e.Stats.Paths, a.Proved, a.Failed, a.Unknown, r.Wall.Seconds(), boundsStr(r.O))
+			}
 		}
 		for id2, n := range e.Reached {
 			if n == 0 {
@@ -608,7 +637,6 @@ func runOblig(base *sym.Engine, prog *sym.Program, p *Prop, o Oblig, worker int,
 		return r
 	}
 	defer e.Close()
-	e.IntMode = !o.BVMode
 	if o.Unroll > 0 {
 		e.MaxUnroll = o.Unroll
 	}
@@ -671,7 +699,7 @@ func runOblig(base *sym.Engine, prog *sym.Program, p *Prop, o Oblig, worker int,
 
 // runObservations pushes concrete vectors through the native build and
 // through the encoding and compares what both observe.
-func runObservations(sc *scratch, base *sym.Engine, prog *sym.Program, p *Prop) (bool, int, string) {
+func runObservations(sc *scratch, base, baseBV *sym.Engine, prog *sym.Program, p *Prop) (bool, int, string) {
 	if len(p.ObserveHarness) == 0 {
 		return true, 0, ""
 	}
@@ -683,11 +711,32 @@ func runObservations(sc *scratch, base *sym.Engine, prog *sym.Program, p *Prop) 
 	for _, m := range regexp.MustCompile(`(?m)^VOBS (.*)$`).FindAllStringSubmatch(out, -1) {
 		native = append(native, m[1])
 	}
+	modes := []bool{false}
+	if p.ObserveBV {
+		modes = append(modes, true)
+	}
+	total := 0
+	for _, bv := range modes {
+		b := base
+		if bv {
+			b = baseBV
+		}
+		ok, n, msg := runObservationsMode(b, prog, p, native, bv)
+		if !ok {
+			return false, 0, fmt.Sprintf("(bit-vector encoding=%v) %s", bv, msg)
+		}
+		total += n
+	}
+	return true, total, ""
+}
+
+func runObservationsMode(base *sym.Engine, prog *sym.Program, p *Prop, native []string, bv bool) (bool, int, string) {
 	e, err := base.Fork(99, "z3", 10000)
 	if err != nil {
 		return false, 0, err.Error()
 	}
 	defer e.Close()
+	e.MaxSteps = 200000000
 	for _, h := range p.ObserveHarness {
 		fn := prog.Func(p.PkgPath, h)
 		if fn == nil {
@@ -698,6 +747,9 @@ func runObservations(sc *scratch, base *sym.Engine, prog *sym.Program, p *Prop) 
 			defer func() {
 				if x := recover(); x != nil {
 					failure = fmt.Sprint(x)
+					if os.Getenv("VERIF_TRACE") != "" {
+						fmt.Fprintf(os.Stderr, "%s\n", debug.Stack())
+					}
 				}
 			}()
 			e.Explore(fn, nil)
